@@ -1,4 +1,4 @@
-import Kolibrie.Lemmas.Implement
+import Kolibrie.Lemmas.Filters
 /-! The lowering is sound: the all-bind-join reference plan of a lowered group pattern computes the algebra's
     solutions (fragment: BGPs, nested groups with group-scoped FILTERs, UNION, GRAPH <iri>/?g, VALUES). -/
 namespace Kolibrie.Engine
@@ -104,5 +104,949 @@ theorem scan_scope (db : DB) (ctx : Ctx) (s p o : Term) (scope : GTerm) (inc : L
   apply scanRow_scope
   exact scopeOK_of_extends db scope ctx inc [row] h (fun b hb => by
     simp at hb; subst hb; exact ⟨b, hrow, extends_refl b⟩)
+
+
+/-! ### plans without projection / BIND only extend rows -/
+
+def plain : Plan → Bool
+  | .unit => true
+  | .empty => true
+  | .scan _ => true
+  | .star _ => true
+  | .values _ _ => true
+  | .subquery _ _ => true
+  | .union l r => plain l && plain r
+  | .bindJoin l r => plain l && plain r
+  | .hashJoin l r => plain l && plain r
+  | .nlJoin l r => plain l && plain r
+  | .graph i _ => plain i
+  | .filter i _ => plain i
+  | .project _ _ => false
+  | .bind _ _ _ => false
+
+/-- turn every filter into a trivially safe one: `exec_facts` does not look at filter conditions -/
+theorem exec_extends_plain (db : DB) (p : Plan) (hp : plain p = true) :
+    ∀ (ctx : Ctx) (inc : List Row), AllWF inc → ∀ b ∈ exec db p ctx inc,
+      (∃ i ∈ inc, Extends i b) ∧ ∀ v ∈ planCertain p, (Row.get b v).isSome = true := by
+  induction p with
+  | unit => intro ctx inc hi; exact exec_facts db .unit rfl ctx inc hi
+  | empty => intro ctx inc hi; exact exec_facts db .empty rfl ctx inc hi
+  | scan pat => intro ctx inc hi; exact exec_facts db (.scan pat) rfl ctx inc hi
+  | star pats => intro ctx inc hi; exact exec_facts db (.star pats) rfl ctx inc hi
+  | values a b => intro ctx inc hi; exact exec_facts db (.values a b) rfl ctx inc hi
+  | subquery i spec _ => intro ctx inc hi; exact exec_facts db (.subquery i spec) rfl ctx inc hi
+  | project _ _ _ => simp [plain] at hp
+  | bind _ _ _ _ => simp [plain] at hp
+  | filter i c ih =>
+    intro ctx inc hi b hb
+    simp only [plain] at hp
+    rw [exec_filter] at hb
+    exact ih hp ctx inc hi b (mem_filter.1 hb).1
+  | union l r ihl ihr =>
+    intro ctx inc hi b hb
+    simp only [plain, Bool.and_eq_true] at hp
+    rw [exec_union] at hb
+    rcases mem_append.1 hb with hb | hb
+    · obtain ⟨h1, h2⟩ := ihl hp.1 ctx inc hi b hb
+      exact ⟨h1, fun v hv => h2 v (by simp [planCertain] at hv; exact hv.1)⟩
+    · obtain ⟨h1, h2⟩ := ihr hp.2 ctx inc hi b hb
+      exact ⟨h1, fun v hv => h2 v (by simp [planCertain] at hv; exact hv.2)⟩
+  | graph i g ih =>
+    intro ctx inc hi b hb
+    simp only [plain] at hp
+    rw [exec_graph] at hb
+    cases g with
+    | dflt => exact ih hp _ inc hi b hb
+    | named gn =>
+      simp only at hb
+      split at hb
+      · exact ih hp _ inc hi b hb
+      · simp at hb
+    | var v =>
+      simp only at hb
+      obtain ⟨row, hrow, hb'⟩ := mem_flatMap.1 hb
+      unfold graphVarRow at hb'
+      cases hg : Row.get row v with
+      | none =>
+        rw [hg] at hb'; simp only at hb'
+        obtain ⟨g, _, hb''⟩ := mem_flatMap.1 hb'
+        have hw : AllWF [Row.insert row v g] := fun r hr => by
+          simp at hr; subst hr; exact Row.wf_insert row v g (hi row hrow)
+        obtain ⟨⟨i', hi', hext⟩, hc⟩ := ih hp _ _ hw b hb''
+        simp at hi'; subst hi'
+        refine ⟨⟨row, hrow, ?_⟩, hc⟩
+        intro w x hw'
+        apply hext
+        by_cases hwv : w = v
+        · subst hwv; rw [hg] at hw'; cases hw'
+        · rw [Row.get_insert_ne _ _ _ _ hwv]; exact hw'
+      | some g =>
+        rw [hg] at hb'; simp only at hb'
+        split at hb'
+        · have hw : AllWF [row] := fun r hr => by simp at hr; rw [hr]; exact hi row hrow
+          obtain ⟨⟨i', hi', hext⟩, hc⟩ := ih hp _ _ hw b hb'
+          simp at hi'; subst hi'
+          exact ⟨⟨i', hrow, hext⟩, hc⟩
+        · simp at hb'
+  | bindJoin l r ihl ihr =>
+    intro ctx inc hi b hb
+    simp only [plain, Bool.and_eq_true] at hp
+    rw [exec_bindJoin] at hb
+    obtain ⟨⟨m, hm, hext⟩, hc⟩ := ihr hp.2 ctx _ (exec_wf db l ctx inc hi) b hb
+    obtain ⟨⟨i, hi', hext'⟩, hc'⟩ := ihl hp.1 ctx inc hi m hm
+    refine ⟨⟨i, hi', extends_trans hext' hext⟩, ?_⟩
+    intro v hv
+    simp only [planCertain, mem_append] at hv
+    rcases hv with hv | hv
+    · exact hext.isSome v (hc' v hv)
+    · exact hc v hv
+  | hashJoin l r ihl ihr =>
+    intro ctx inc hi b hb
+    simp only [plain, Bool.and_eq_true] at hp
+    rw [exec_hashJoin] at hb
+    have hb2 : b ∈ nlJoin (exec db l ctx inc) (exec db r ctx [[]]) := (guarded_hash_perm _ _).subset hb
+    unfold nlJoin at hb2
+    obtain ⟨m, hm, hb'⟩ := mem_flatMap.1 hb2
+    obtain ⟨n, hn, hmn⟩ := mem_filterMap.1 hb'
+    obtain ⟨⟨i, hi', hext'⟩, hc'⟩ := ihl hp.1 ctx inc hi m hm
+    obtain ⟨_, hcr⟩ := ihr hp.2 ctx [[]] allWF_unit n hn
+    obtain ⟨e1, e2⟩ := mergeRows_extends m n b (exec_wf db l ctx inc hi m hm) hmn
+    refine ⟨⟨i, hi', extends_trans hext' e1⟩, ?_⟩
+    intro v hv
+    simp only [planCertain, mem_append] at hv
+    rcases hv with hv | hv
+    · exact e1.isSome v (hc' v hv)
+    · exact e2.isSome v (hcr v hv)
+  | nlJoin l r ihl ihr =>
+    intro ctx inc hi b hb
+    simp only [plain, Bool.and_eq_true] at hp
+    rw [exec_nlJoin, hash_or_nl_empty] at hb
+    unfold nlJoin at hb
+    obtain ⟨m, hm, hb'⟩ := mem_flatMap.1 hb
+    obtain ⟨n, hn, hmn⟩ := mem_filterMap.1 hb'
+    obtain ⟨⟨i, hi', hext'⟩, hc'⟩ := ihl hp.1 ctx inc hi m hm
+    obtain ⟨_, hcr⟩ := ihr hp.2 ctx [[]] allWF_unit n hn
+    obtain ⟨e1, e2⟩ := mergeRows_extends m n b (exec_wf db l ctx inc hi m hm) hmn
+    refine ⟨⟨i, hi', extends_trans hext' e1⟩, ?_⟩
+    intro v hv
+    simp only [planCertain, mem_append] at hv
+    rcases hv with hv | hv
+    · exact e1.isSome v (hc' v hv)
+    · exact e2.isSome v (hcr v hv)
+
+
+/-! ### the fragment -/
+
+mutual
+/-- variables certainly bound by a pattern, computed the way `planCertain` sees its lowering -/
+def certainP : Pat → List Var
+  | .unit => []
+  | .bgp tps => tps.flatMap (fun t => termVar t.1 ++ termVar t.2.1 ++ termVar t.2.2)
+  | .group elems => certainPs elems
+  | .union bs => certainPU bs
+  | .graph _ p => certainP p
+  | .filter _ => []
+  | .bind _ _ => []
+  | .values _ _ => []
+  | .sub _ _ => []
+def certainPs : List Pat → List Var
+  | [] => []
+  | p :: rest => certainP p ++ certainPs rest
+def certainPU : List Pat → List Var
+  | [] => []
+  | p :: rest => (certainP p).filter (fun v => (certainPU rest).contains v)
+end
+
+def filtersOk (cert : List Var) : List Pat → Bool
+  | [] => true
+  | .filter c :: rest => c.vars.all (fun v => cert.contains v) && filtersOk cert rest
+  | _ :: rest => filtersOk cert rest
+
+mutual
+/-- the fragment of the lowering-soundness theorem: BGPs, nested groups whose FILTERs only mention variables the
+    group certainly binds, UNION, GRAPH <iri> / GRAPH ?g, VALUES (no BIND, no sub-select) -/
+def okPat : Pat → Bool
+  | .unit => true
+  | .bgp _ => true
+  | .group elems => okElems elems && filtersOk (certainPs elems) elems
+  | .union bs => okAll bs
+  | .graph name p => (match name with | .dflt => false | _ => true) && okPat p
+  | .filter _ => false
+  | .bind _ _ => false
+  | .values _ _ => true
+  | .sub _ _ => false
+def okElems : List Pat → Bool
+  | [] => true
+  | .filter _ :: rest => okElems rest
+  | p :: rest => okPat p && okElems rest
+def okAll : List Pat → Bool
+  | [] => true
+  | p :: rest => okPat p && okAll rest
+end
+
+/-- the executor on the elements of a group, one after the other (FILTERs are deferred) -/
+def runGroup (db : DB) (scope : GTerm) (ctx : Ctx) (acc : List Row) : List Pat → List Row
+  | [] => acc
+  | .filter _ :: rest => runGroup db scope ctx acc rest
+  | p :: rest => runGroup db scope ctx (exec db (implBind (lower scope p)) ctx acc) rest
+
+theorem lowerGroup_exec (db : DB) (scope : GTerm) (ctx : Ctx) (elems : List Pat) (he : okElems elems = true) :
+    ∀ (plan : Logical) (inc : List Row),
+      exec db (implBind (lowerGroup scope plan elems)) ctx inc =
+        runGroup db scope ctx (exec db (implBind plan) ctx inc) elems := by
+  induction elems with
+  | nil => intro plan inc; simp [lowerGroup, runGroup]
+  | cons e rest ih =>
+    intro plan inc
+    cases e with
+    | filter c =>
+      simp only [okElems] at he
+      simp only [lowerGroup, runGroup]; exact ih he plan inc
+    | bind args out => simp [okElems, okPat] at he
+    | unit =>
+      simp only [okElems, Bool.and_eq_true] at he
+      simp only [lowerGroup, runGroup, ih he.2, exec_appendJoin]
+    | bgp tps =>
+      simp only [okElems, Bool.and_eq_true] at he
+      simp only [lowerGroup, runGroup, ih he.2, exec_appendJoin]
+    | group es =>
+      simp only [okElems, Bool.and_eq_true] at he
+      simp only [lowerGroup, runGroup, ih he.2, exec_appendJoin]
+    | union bs =>
+      simp only [okElems, Bool.and_eq_true] at he
+      simp only [lowerGroup, runGroup, ih he.2, exec_appendJoin]
+    | graph n q =>
+      simp only [okElems, Bool.and_eq_true] at he
+      simp only [lowerGroup, runGroup, ih he.2, exec_appendJoin]
+    | values vs rs =>
+      simp only [okElems, Bool.and_eq_true] at he
+      simp only [lowerGroup, runGroup, ih he.2, exec_appendJoin]
+    | sub q spec => simp [okElems, okPat] at he
+
+theorem lowerFilters_execB (db : DB) (ctx : Ctx) (inc : List Row) (plan : Logical) (elems : List Pat) :
+    exec db (implBind (lowerFilters plan elems)) ctx inc = implFilters (exec db (implBind plan) ctx inc) elems := by
+  induction elems generalizing plan with
+  | nil => simp [lowerFilters, implFilters]
+  | cons e rest ih =>
+    cases e <;> simp only [lowerFilters, implFilters, ih, implBind, exec_filter]
+
+/-! ### folds of joins -/
+
+theorem fold_nlJoin_assoc {α} (xs : List α) (f : α → List Row) (hf : ∀ x ∈ xs, AllWF (f x))
+    (acc B : List Row) (ha : AllWF acc) (hB : AllWF B) :
+    xs.foldl (fun a x => nlJoin a (f x)) (nlJoin acc B) = nlJoin acc (xs.foldl (fun a x => nlJoin a (f x)) B) := by
+  induction xs generalizing B with
+  | nil => rfl
+  | cons x xs ih =>
+    simp only [foldl_cons]
+    rw [nlJoin_assoc acc B (f x) ha hB]
+    exact ih (fun y hy => hf y (by simp [hy])) _ (nlJoin_wf B (f x) hB)
+
+theorem semGroup_assoc (db : DB) (ctx : Ctx) (elems : List Pat) (acc B : List Row) (ha : AllWF acc)
+    (hB : AllWF B) (hne : ∀ args out, Pat.bind args out ∉ elems) :
+    semGroup db ctx (nlJoin acc B) elems = nlJoin acc (semGroup db ctx B elems) := by
+  induction elems generalizing B with
+  | nil => simp [semGroup]
+  | cons e rest ih =>
+    have hne' : ∀ args out, Pat.bind args out ∉ rest := fun a o h => hne a o (by simp [h])
+    cases e with
+    | filter c => simp only [semGroup]; exact ih B hB hne'
+    | bind args out => exact absurd (by simp) (hne args out)
+    | unit =>
+      simp only [semGroup]
+      rw [nlJoin_assoc acc B _ ha hB]; exact ih _ (nlJoin_wf B _ hB) hne'
+    | bgp tps =>
+      simp only [semGroup]
+      rw [nlJoin_assoc acc B _ ha hB]; exact ih _ (nlJoin_wf B _ hB) hne'
+    | group es =>
+      simp only [semGroup]
+      rw [nlJoin_assoc acc B _ ha hB]; exact ih _ (nlJoin_wf B _ hB) hne'
+    | union bs =>
+      simp only [semGroup]
+      rw [nlJoin_assoc acc B _ ha hB]; exact ih _ (nlJoin_wf B _ hB) hne'
+    | graph n q =>
+      simp only [semGroup]
+      rw [nlJoin_assoc acc B _ ha hB]; exact ih _ (nlJoin_wf B _ hB) hne'
+    | values vs rs =>
+      simp only [semGroup]
+      rw [nlJoin_assoc acc B _ ha hB]; exact ih _ (nlJoin_wf B _ hB) hne'
+    | sub q spec =>
+      simp only [semGroup]
+      rw [nlJoin_assoc acc B _ ha hB]; exact ih _ (nlJoin_wf B _ hB) hne'
+
+theorem implFilters_perm {a b : List Row} (elems : List Pat) (h : a ~ b) : implFilters a elems ~ implFilters b elems := by
+  induction elems generalizing a b with
+  | nil => exact h
+  | cons e rest ih =>
+    cases e with
+    | filter c => simp only [implFilters]; exact ih (h.filter _)
+    | _ => simp only [implFilters]; exact ih h
+
+theorem implFilters_nlJoin (inc G : List Row) (elems : List Pat) (hi : AllWF inc)
+    (hb : ∀ c, Pat.filter c ∈ elems → ∀ r ∈ G, ∀ v ∈ c.vars, (Row.get r v).isSome = true) :
+    implFilters (nlJoin inc G) elems = nlJoin inc (implFilters G elems) := by
+  induction elems generalizing G with
+  | nil => rfl
+  | cons e rest ih =>
+    cases e with
+    | filter c =>
+      simp only [implFilters]
+      rw [filter_nlJoin c inc G hi (hb c (by simp))]
+      apply ih
+      intro c' hc' r hr
+      exact hb c' (by simp [hc']) r (mem_filter.1 hr).1
+    | _ =>
+      simp only [implFilters]
+      apply ih
+      intro c' hc' r hr
+      exact hb c' (by simp [hc']) r hr
+
+
+/-! ### lowered patterns of the fragment are plain, and bind the pattern's certain variables -/
+
+theorem plain_appendJoin (a b : Logical) (ha : plain (implBind a) = true) (hb : plain (implBind b) = true) :
+    plain (implBind (appendJoin a b)) = true := by
+  unfold appendJoin; split <;> simp_all [implBind, plain]
+
+theorem planCertain_appendJoin (a b : Logical) :
+    planCertain (implBind (appendJoin a b)) = planCertain (implBind a) ++ planCertain (implBind b) := by
+  unfold appendJoin; split <;> simp [implBind, planCertain]
+
+theorem plain_lowerFilters (plan : Logical) (elems : List Pat) (h : plain (implBind plan) = true) :
+    plain (implBind (lowerFilters plan elems)) = true := by
+  induction elems generalizing plan with
+  | nil => simpa [lowerFilters]
+  | cons e rest ih => cases e <;> simp only [lowerFilters] <;> apply ih <;> simpa [implBind, plain] using h
+
+theorem planCertain_lowerFilters (plan : Logical) (elems : List Pat) :
+    planCertain (implBind (lowerFilters plan elems)) = planCertain (implBind plan) := by
+  induction elems generalizing plan with
+  | nil => simp [lowerFilters]
+  | cons e rest ih => cases e <;> simp only [lowerFilters, ih, implBind, planCertain]
+
+theorem bgp_fold_facts (scope : GTerm) (tps : List (Term × Term × Term)) (L0 : Logical)
+    (h0 : plain (implBind L0) = true) :
+    plain (implBind (tps.foldl (fun acc t => appendJoin acc (.scan ⟨t.1, t.2.1, t.2.2, scope⟩)) L0)) = true ∧
+    ∀ v, (v ∈ planCertain (implBind L0) ∨ v ∈ tps.flatMap (fun t => termVar t.1 ++ termVar t.2.1 ++ termVar t.2.2)) →
+      v ∈ planCertain (implBind (tps.foldl (fun acc t => appendJoin acc (.scan ⟨t.1, t.2.1, t.2.2, scope⟩)) L0)) := by
+  induction tps generalizing L0 with
+  | nil => exact ⟨h0, fun v hv => by simpa using hv⟩
+  | cons t rest ih =>
+    simp only [foldl_cons]
+    have hp := plain_appendJoin L0 (.scan ⟨t.1, t.2.1, t.2.2, scope⟩) h0 rfl
+    obtain ⟨h1, h2⟩ := ih _ hp
+    refine ⟨h1, ?_⟩
+    intro v hv
+    apply h2
+    rw [planCertain_appendJoin]
+    simp only [flatMap_cons, mem_append] at hv ⊢
+    rcases hv with hv | (hv | hv)
+    · exact Or.inl (Or.inl hv)
+    · exact Or.inl (Or.inr (by simpa [implBind, planCertain, mem_append, or_assoc] using hv))
+    · exact Or.inr hv
+
+theorem lower_bgp_eq (scope : GTerm) (tps : List (Term × Term × Term)) :
+    lower scope (.bgp tps) = tps.foldl (fun acc t => appendJoin acc (.scan ⟨t.1, t.2.1, t.2.2, scope⟩)) .unit := by
+  simp only [lower]
+
+mutual
+theorem lower_facts (scope : GTerm) : (p : Pat) → okPat p = true →
+    plain (implBind (lower scope p)) = true ∧ ∀ v ∈ certainP p, v ∈ planCertain (implBind (lower scope p))
+  | .unit, _ => ⟨rfl, fun v hv => by simp [certainP] at hv⟩
+  | .bgp tps, _ => by
+      rw [lower_bgp_eq]
+      obtain ⟨h1, h2⟩ := bgp_fold_facts scope tps .unit rfl
+      exact ⟨h1, fun v hv => h2 v (Or.inr (by simpa [certainP] using hv))⟩
+  | .group elems, h => by
+      simp only [okPat, Bool.and_eq_true] at h
+      obtain ⟨h1, h2⟩ := lowerGroup_facts scope elems h.1 .unit rfl
+      simp only [lower]
+      refine ⟨plain_lowerFilters _ _ h1, ?_⟩
+      intro v hv
+      rw [planCertain_lowerFilters]
+      exact h2 v (Or.inr (by simpa [certainP] using hv))
+  | .union bs, h => by
+      simp only [okPat] at h
+      simp only [lower, certainP]
+      exact lowerUnion_facts scope bs h
+  | .graph name p, h => by
+      simp only [okPat, Bool.and_eq_true] at h
+      obtain ⟨h1, h2⟩ := lower_facts name p h.2
+      simp only [lower, implBind, plain, planCertain, certainP]
+      exact ⟨h1, h2⟩
+  | .filter _, h => by simp [okPat] at h
+  | .bind _ _, h => by simp [okPat] at h
+  | .values vs rs, _ => ⟨rfl, fun v hv => by simp [certainP] at hv⟩
+  | .sub _ _, h => by simp [okPat] at h
+
+theorem lowerGroup_facts (scope : GTerm) : (elems : List Pat) → okElems elems = true → (plan : Logical) →
+    plain (implBind plan) = true →
+    plain (implBind (lowerGroup scope plan elems)) = true ∧
+    ∀ v, (v ∈ planCertain (implBind plan) ∨ v ∈ certainPs elems) →
+      v ∈ planCertain (implBind (lowerGroup scope plan elems))
+  | [], _, plan, hp => ⟨by simpa [lowerGroup] using hp, fun v hv => by simpa [lowerGroup, certainPs] using hv⟩
+  | e :: rest, he, plan, hp => by
+      cases e with
+      | filter c =>
+        simp only [okElems] at he
+        obtain ⟨h1, h2⟩ := lowerGroup_facts scope rest he plan hp
+        simp only [lowerGroup]
+        exact ⟨h1, fun v hv => h2 v (by simpa [certainPs, certainP] using hv)⟩
+      | bind args out => simp [okElems, okPat] at he
+      | sub q spec => simp [okElems, okPat] at he
+      | unit =>
+        simp only [okElems, Bool.and_eq_true] at he
+        obtain ⟨f1, f2⟩ := lower_facts scope .unit he.1
+        obtain ⟨h1, h2⟩ := lowerGroup_facts scope rest he.2 _ (plain_appendJoin plan _ hp f1)
+        simp only [lowerGroup]
+        refine ⟨h1, fun v hv => h2 v ?_⟩
+        rw [planCertain_appendJoin]
+        simp only [certainPs, mem_append] at hv ⊢
+        rcases hv with hv | hv | hv
+        · exact Or.inl (Or.inl hv)
+        · exact Or.inl (Or.inr (f2 v hv))
+        · exact Or.inr hv
+      | bgp tps =>
+        simp only [okElems, Bool.and_eq_true] at he
+        obtain ⟨f1, f2⟩ := lower_facts scope (.bgp tps) he.1
+        obtain ⟨h1, h2⟩ := lowerGroup_facts scope rest he.2 _ (plain_appendJoin plan _ hp f1)
+        simp only [lowerGroup]
+        refine ⟨h1, fun v hv => h2 v ?_⟩
+        rw [planCertain_appendJoin]
+        simp only [certainPs, mem_append] at hv ⊢
+        rcases hv with hv | hv | hv
+        · exact Or.inl (Or.inl hv)
+        · exact Or.inl (Or.inr (f2 v hv))
+        · exact Or.inr hv
+      | group es =>
+        simp only [okElems, Bool.and_eq_true] at he
+        obtain ⟨f1, f2⟩ := lower_facts scope (.group es) he.1
+        obtain ⟨h1, h2⟩ := lowerGroup_facts scope rest he.2 _ (plain_appendJoin plan _ hp f1)
+        simp only [lowerGroup]
+        refine ⟨h1, fun v hv => h2 v ?_⟩
+        rw [planCertain_appendJoin]
+        simp only [certainPs, mem_append] at hv ⊢
+        rcases hv with hv | hv | hv
+        · exact Or.inl (Or.inl hv)
+        · exact Or.inl (Or.inr (f2 v hv))
+        · exact Or.inr hv
+      | union bs =>
+        simp only [okElems, Bool.and_eq_true] at he
+        obtain ⟨f1, f2⟩ := lower_facts scope (.union bs) he.1
+        obtain ⟨h1, h2⟩ := lowerGroup_facts scope rest he.2 _ (plain_appendJoin plan _ hp f1)
+        simp only [lowerGroup]
+        refine ⟨h1, fun v hv => h2 v ?_⟩
+        rw [planCertain_appendJoin]
+        simp only [certainPs, mem_append] at hv ⊢
+        rcases hv with hv | hv | hv
+        · exact Or.inl (Or.inl hv)
+        · exact Or.inl (Or.inr (f2 v hv))
+        · exact Or.inr hv
+      | graph n q =>
+        simp only [okElems, Bool.and_eq_true] at he
+        obtain ⟨f1, f2⟩ := lower_facts scope (.graph n q) he.1
+        obtain ⟨h1, h2⟩ := lowerGroup_facts scope rest he.2 _ (plain_appendJoin plan _ hp f1)
+        simp only [lowerGroup]
+        refine ⟨h1, fun v hv => h2 v ?_⟩
+        rw [planCertain_appendJoin]
+        simp only [certainPs, mem_append] at hv ⊢
+        rcases hv with hv | hv | hv
+        · exact Or.inl (Or.inl hv)
+        · exact Or.inl (Or.inr (f2 v hv))
+        · exact Or.inr hv
+      | values vs rs =>
+        simp only [okElems, Bool.and_eq_true] at he
+        obtain ⟨f1, f2⟩ := lower_facts scope (.values vs rs) he.1
+        obtain ⟨h1, h2⟩ := lowerGroup_facts scope rest he.2 _ (plain_appendJoin plan _ hp f1)
+        simp only [lowerGroup]
+        refine ⟨h1, fun v hv => h2 v ?_⟩
+        rw [planCertain_appendJoin]
+        simp only [certainPs, mem_append] at hv ⊢
+        rcases hv with hv | hv | hv
+        · exact Or.inl (Or.inl hv)
+        · exact Or.inl (Or.inr (f2 v hv))
+        · exact Or.inr hv
+
+theorem lowerUnion_facts (scope : GTerm) : (bs : List Pat) → okAll bs = true →
+    plain (implBind (lowerUnion scope bs)) = true ∧
+    ∀ v ∈ certainPU bs, v ∈ planCertain (implBind (lowerUnion scope bs))
+  | [], _ => ⟨rfl, fun v hv => by simp [certainPU] at hv⟩
+  | b :: rest, h => by
+      simp only [okAll, Bool.and_eq_true] at h
+      obtain ⟨f1, f2⟩ := lower_facts scope b h.1
+      obtain ⟨g1, g2⟩ := lowerUnion_facts scope rest h.2
+      simp only [lowerUnion, implBind, plain, planCertain, certainPU, f1, g1, Bool.and_self, true_and]
+      intro v hv
+      simp only [mem_filter, contains_eq_mem, decide_eq_true_eq] at hv ⊢
+      exact ⟨f2 v hv.1, g2 v hv.2⟩
+end
+
+
+/-! ### rows of the algebra are canonical -/
+
+theorem valuesRows_wf (vars : List Var) (rows : List (List (Option Val))) : AllWF (valuesRows vars rows) := by
+  intro r hr
+  unfold valuesRows at hr
+  obtain ⟨cells, _, rfl⟩ := mem_map.1 hr
+  generalize vars.zip cells = zs
+  suffices h : ∀ (acc : Row), Row.WF acc → Row.WF (zs.foldl valuesStep acc) from h [] Row.wf_nil
+  intro acc hacc
+  induction zs generalizing acc with
+  | nil => exact hacc
+  | cons z zs ih =>
+    simp only [foldl_cons]
+    apply ih
+    unfold valuesStep
+    cases z.2 with
+    | none => exact hacc
+    | some y => exact Row.wf_insert acc z.1 y hacc
+
+theorem nlJoin_extends (acc X : List Row) (ha : AllWF acc) : ∀ b ∈ nlJoin acc X, ∃ i ∈ acc, Extends i b := by
+  intro b hb
+  unfold nlJoin at hb
+  obtain ⟨i, hi, hb'⟩ := mem_flatMap.1 hb
+  obtain ⟨x, _, hm⟩ := mem_filterMap.1 hb'
+  exact ⟨i, hi, (mergeRows_extends i x b (ha i hi) hm).1⟩
+
+theorem bgp_fold_wf (db : DB) (ctx : Ctx) (tps : List (Term × Term × Term)) (acc : List Row) (hacc : AllWF acc) :
+    AllWF (tps.foldl (fun acc (x : Term × Term × Term) => nlJoin acc (scan db ctx ⟨x.1, x.2.1, x.2.2, .dflt⟩ [[]])) acc) := by
+  induction tps generalizing acc with
+  | nil => exact hacc
+  | cons t rest ih => simp only [foldl_cons]; exact ih _ (nlJoin_wf acc _ hacc)
+
+mutual
+theorem sem_wf (db : DB) : (p : Pat) → okPat p = true → ∀ ctx : Ctx, AllWF (sem db ctx p)
+  | .unit, _, _ => by simp only [sem]; exact allWF_unit
+  | .bgp tps, _, ctx => by
+      simp only [sem]
+      exact bgp_fold_wf db ctx tps [[]] allWF_unit
+  | .group elems, h, ctx => by
+      simp only [okPat, Bool.and_eq_true] at h
+      simp only [sem]
+      have hg := semGroup_wf db elems h.1 ctx [[]] allWF_unit
+      generalize semGroup db ctx [[]] elems = G at hg
+      clear h
+      induction elems generalizing G with
+      | nil => simpa [semFilters] using hg
+      | cons e rest ih =>
+        cases e with
+        | filter c => simp only [semFilters]; exact ih _ (allWF_filter _ hg)
+        | _ => simp only [semFilters]; exact ih _ hg
+  | .union bs, h, ctx => by
+      simp only [okPat] at h
+      simp only [sem]; exact semUnion_wf db bs h ctx
+  | .graph name p, h, ctx => by
+      simp only [okPat, Bool.and_eq_true] at h
+      simp only [sem]
+      cases name with
+      | dflt => simp at h
+      | named g =>
+        simp only
+        split
+        · exact sem_wf db p h.2 _
+        · exact allWF_nil
+      | var v =>
+        simp only
+        apply allWF_flatMap
+        intro g _
+        apply nlJoin_wf
+        intro r hr; simp at hr; subst hr; exact wf_single v g
+  | .filter _, h, _ => by simp [okPat] at h
+  | .bind _ _, h, _ => by simp [okPat] at h
+  | .values vs rs, _, _ => by simp only [sem]; exact valuesRows_wf vs rs
+  | .sub _ _, h, _ => by simp [okPat] at h
+
+theorem semGroup_wf (db : DB) : (elems : List Pat) → okElems elems = true → ∀ (ctx : Ctx) (acc : List Row),
+    AllWF acc → AllWF (semGroup db ctx acc elems)
+  | [], _, _, acc, ha => by simpa [semGroup] using ha
+  | e :: rest, he, ctx, acc, ha => by
+      cases e with
+      | filter c => simp only [okElems] at he; simp only [semGroup]; exact semGroup_wf db rest he ctx acc ha
+      | bind args out => simp [okElems, okPat] at he
+      | sub q spec => simp [okElems, okPat] at he
+      | unit => simp only [okElems, Bool.and_eq_true] at he; simp only [semGroup]; exact semGroup_wf db rest he.2 ctx _ (nlJoin_wf acc _ ha)
+      | bgp tps => simp only [okElems, Bool.and_eq_true] at he; simp only [semGroup]; exact semGroup_wf db rest he.2 ctx _ (nlJoin_wf acc _ ha)
+      | group es => simp only [okElems, Bool.and_eq_true] at he; simp only [semGroup]; exact semGroup_wf db rest he.2 ctx _ (nlJoin_wf acc _ ha)
+      | union bs => simp only [okElems, Bool.and_eq_true] at he; simp only [semGroup]; exact semGroup_wf db rest he.2 ctx _ (nlJoin_wf acc _ ha)
+      | graph n q => simp only [okElems, Bool.and_eq_true] at he; simp only [semGroup]; exact semGroup_wf db rest he.2 ctx _ (nlJoin_wf acc _ ha)
+      | values vs rs => simp only [okElems, Bool.and_eq_true] at he; simp only [semGroup]; exact semGroup_wf db rest he.2 ctx _ (nlJoin_wf acc _ ha)
+
+theorem semUnion_wf (db : DB) : (bs : List Pat) → okAll bs = true → ∀ ctx : Ctx, AllWF (semUnion db ctx bs)
+  | [], _, _ => by simp only [semUnion]; exact allWF_nil
+  | b :: rest, h, ctx => by
+      simp only [okAll, Bool.and_eq_true] at h
+      simp only [semUnion]
+      exact allWF_append (sem_wf db b h.1 ctx) (semUnion_wf db rest h.2 ctx)
+end
+
+theorem okElems_no_bind (elems : List Pat) (h : okElems elems = true) : ∀ args out, Pat.bind args out ∉ elems := by
+  induction elems with
+  | nil => intro a o hm; simp at hm
+  | cons e rest ih =>
+    intro a o hm
+    cases e with
+    | bind args out => simp [okElems, okPat] at h
+    | filter c => simp only [okElems] at h; simp at hm; exact ih h a o hm
+    | unit => simp only [okElems, Bool.and_eq_true] at h; simp at hm; exact ih h.2 a o hm
+    | bgp _ => simp only [okElems, Bool.and_eq_true] at h; simp at hm; exact ih h.2 a o hm
+    | group _ => simp only [okElems, Bool.and_eq_true] at h; simp at hm; exact ih h.2 a o hm
+    | union _ => simp only [okElems, Bool.and_eq_true] at h; simp at hm; exact ih h.2 a o hm
+    | graph _ _ => simp only [okElems, Bool.and_eq_true] at h; simp at hm; exact ih h.2 a o hm
+    | values _ _ => simp only [okElems, Bool.and_eq_true] at h; simp at hm; exact ih h.2 a o hm
+    | sub _ _ => simp [okElems, okPat] at h
+
+theorem runGroup_perm (db : DB) (scope : GTerm) (ctx : Ctx) (elems : List Pat) {a b : List Row} (h : a ~ b) :
+    runGroup db scope ctx a elems ~ runGroup db scope ctx b elems := by
+  induction elems generalizing a b with
+  | nil => exact h
+  | cons e rest ih =>
+    cases e with
+    | filter c => simp only [runGroup]; exact ih h
+    | _ => simp only [runGroup]; exact ih (exec_perm db _ ctx h)
+
+
+/-! ### the main theorem -/
+
+theorem bgp_exec (db : DB) (scope : GTerm) (ctx : Ctx) (tps : List (Term × Term × Term)) (L0 : Logical)
+    (inc : List Row) :
+    exec db (implBind (tps.foldl (fun acc t => appendJoin acc (.scan ⟨t.1, t.2.1, t.2.2, scope⟩)) L0)) ctx inc =
+      tps.foldl (fun a t => scan db ctx ⟨t.1, t.2.1, t.2.2, scope⟩ a) (exec db (implBind L0) ctx inc) := by
+  induction tps generalizing L0 with
+  | nil => rfl
+  | cons t rest ih =>
+    simp only [foldl_cons]
+    rw [ih, exec_appendJoin]
+    simp [implBind, exec_scan]
+
+theorem bgp_scoped (db : DB) (scope : GTerm) (ctx : Ctx) (hc : ctx.WF) (tps : List (Term × Term × Term)) :
+    ∀ acc, AllWF acc → ScopeOK db scope ctx acc →
+      tps.foldl (fun a t => scan db ctx ⟨t.1, t.2.1, t.2.2, scope⟩ a) acc =
+      tps.foldl (fun a (t : Term × Term × Term) => nlJoin a (scan db ctx ⟨t.1, t.2.1, t.2.2, .dflt⟩ [[]])) acc := by
+  induction tps with
+  | nil => intro acc _ _; rfl
+  | cons t rest ih =>
+    intro acc ha hs
+    simp only [foldl_cons]
+    have e : scan db ctx ⟨t.1, t.2.1, t.2.2, scope⟩ acc = nlJoin acc (scan db ctx ⟨t.1, t.2.1, t.2.2, .dflt⟩ [[]]) := by
+      rw [scan_scope db ctx _ _ _ scope acc hs, scan_seed db ctx _ acc ha hc]
+    rw [e]
+    exact ih _ (nlJoin_wf acc _ ha) (scopeOK_of_extends db scope ctx acc _ hs (nlJoin_extends acc _ ha))
+
+theorem graphVar_scope (db : DB) (ctx : Ctx) (v : Var) (g : Val) (row : Row)
+    (hvis : visibleNamed db ctx g = true) (hv : Row.get row v = some g) :
+    ScopeOK db (.var v) { ctx with active := some g } [row] :=
+  ⟨g, rfl, hvis, fun r hr => by simp at hr; rw [hr]; exact hv⟩
+
+theorem group_step (db : DB) (scope : GTerm) (ctx : Ctx) (q : Pat) (rest : List Pat) (acc : List Row)
+    (ha : AllWF acc) (hs : ScopeOK db scope ctx acc)
+    (h1 : exec db (implBind (lower scope q)) ctx acc ~ nlJoin acc (sem db ctx q))
+    (hrec : ∀ acc', AllWF acc' → ScopeOK db scope ctx acc' →
+      runGroup db scope ctx acc' rest ~ semGroup db ctx acc' rest) :
+    runGroup db scope ctx (exec db (implBind (lower scope q)) ctx acc) rest ~
+      semGroup db ctx (nlJoin acc (sem db ctx q)) rest := by
+  have ha' : AllWF (nlJoin acc (sem db ctx q)) := nlJoin_wf acc _ ha
+  have hs' : ScopeOK db scope ctx (nlJoin acc (sem db ctx q)) :=
+    scopeOK_of_extends db scope ctx acc _ hs (nlJoin_extends acc _ ha)
+  exact (runGroup_perm db scope ctx rest h1).trans (hrec _ ha' hs')
+
+mutual
+/-- **Soundness of the lowering** on the fragment: executing the (all-bind-join) plan of a pattern with incoming
+    solutions yields the join of the incoming solutions with the algebra's solutions of the pattern. -/
+theorem lower_sound (db : DB) : (p : Pat) → okPat p = true →
+    ∀ (scope : GTerm) (ctx : Ctx) (inc : List Row), ctx.WF → AllWF inc → ScopeOK db scope ctx inc →
+      exec db (implBind (lower scope p)) ctx inc ~ nlJoin inc (sem db ctx p)
+  | .unit, _, scope, ctx, inc, _, _, _ => by
+      simp only [lower, implBind, exec_unit, sem, nlJoin_unit_right]; exact Perm.refl _
+  | .bgp tps, _, scope, ctx, inc, hc, hi, hs => by
+      rw [lower_bgp_eq, bgp_exec]
+      simp only [implBind, exec_unit, sem]
+      rw [bgp_scoped db scope ctx hc tps inc hi hs]
+      have h := fold_nlJoin_assoc tps (fun (t : Term × Term × Term) => scan db ctx ⟨t.1, t.2.1, t.2.2, .dflt⟩ [[]])
+        (fun t _ => scan_wf db ctx _ _ allWF_unit) inc [[]] hi allWF_unit
+      rw [nlJoin_unit_right] at h
+      rw [h]
+  | .values vs rs, _, scope, ctx, inc, _, _, _ => by
+      simp only [lower, implBind, exec_values, sem]; exact Perm.refl _
+  | .filter _, h, _, _, _, _, _, _ => by simp [okPat] at h
+  | .bind _ _, h, _, _, _, _, _, _ => by simp [okPat] at h
+  | .sub _ _, h, _, _, _, _, _, _ => by simp [okPat] at h
+  | .union bs, h, scope, ctx, inc, hc, hi, hs => by
+      simp only [okPat] at h
+      simp only [lower, sem]
+      exact lowerUnion_sound db bs h scope ctx inc hc hi hs
+  | .graph name p, h, scope, ctx, inc, hc, hi, _ => by
+      simp only [okPat, Bool.and_eq_true] at h
+      simp only [lower, implBind, exec_graph, sem]
+      cases name with
+      | dflt => simp at h
+      | named g =>
+        simp only
+        by_cases hv : visibleNamed db ctx g = true
+        · rw [if_pos hv, if_pos hv]
+          have hc' : ({ ctx with active := some g } : Ctx).WF := hc
+          exact lower_sound db p h.2 (.named g) { ctx with active := some g } inc hc' hi ⟨rfl, hv⟩
+        · rw [if_neg hv, if_neg hv]; simp [nlJoin_nil_right]
+      | var v =>
+        simp only
+        rw [nlJoin_single_flat]
+        apply perm_flatMap_congr
+        intro row hrow
+        have hrw : Row.WF row := hi row hrow
+        have hrow1 : AllWF [row] := fun r hr => by simp at hr; rw [hr]; exact hrw
+        have hcg : ∀ g, ({ ctx with active := some g } : Ctx).WF := fun _ => hc
+        have hvisL : ∀ g, g ∈ ctx.view.named.filter (fun g => db.graphExists g) → visibleNamed db ctx g = true := by
+          intro g hg; simp only [mem_filter] at hg; simp [visibleNamed, hg.1, hg.2]
+        -- right-hand side, block by block
+        have hR : nlJoin [row] ((ctx.view.named.filter (fun g => db.graphExists g)).flatMap
+              (fun g => nlJoin [[(v, g)]] (sem db { ctx with active := some g } p))) ~
+            (ctx.view.named.filter (fun g => db.graphExists g)).flatMap
+              (fun g => nlJoin (nlJoin [row] [[(v, g)]]) (sem db { ctx with active := some g } p)) := by
+          refine (nlJoin_flatMap_right [row] _ _).trans ?_
+          apply perm_flatMap_congr
+          intro g _
+          have hwg : AllWF [[(v, g)]] := fun r hr => by simp at hr; subst hr; exact wf_single v g
+          rw [nlJoin_assoc [row] _ _ hrow1 hwg]
+        refine Perm.trans ?_ hR.symm
+        unfold graphVarRow
+        cases hg : Row.get row v with
+        | none =>
+          simp only
+          apply perm_flatMap_congr
+          intro g hgL
+          rw [graphVar_unbound row v g hrw hg]
+          have hw1 : AllWF [Row.insert row v g] := fun r hr => by
+            simp at hr; subst hr; exact Row.wf_insert row v g hrw
+          exact lower_sound db p h.2 (.var v) { ctx with active := some g } _ (hcg g) hw1
+            (graphVar_scope db ctx v g _ (hvisL g hgL) (Row.get_insert_self row v g))
+        | some g0 =>
+          simp only
+          have hL : (ctx.view.named.filter (fun g => db.graphExists g)).Nodup := nodup_filter' _ hc
+          rw [flatMap_single_of_nodup _ hL g0 _ (fun g' _ hne => by
+            rw [graphVar_bound row v g' g0 hrw hg]
+            have : (g0 == g') = false := beq_false_of_ne (fun e => hne e.symm)
+            simp [this, nlJoin])]
+          have hvis : visibleNamed db ctx g0 = true ↔ g0 ∈ ctx.view.named.filter (fun g => db.graphExists g) := by
+            simp [visibleNamed, mem_filter]
+          by_cases hm : g0 ∈ ctx.view.named.filter (fun g => db.graphExists g)
+          · rw [if_pos hm, if_pos (hvis.2 hm), graphVar_bound row v g0 g0 hrw hg]
+            simp only [beq_self_eq_true, if_true]
+            exact lower_sound db p h.2 (.var v) { ctx with active := some g0 } [row] (hcg g0) hrow1
+              (graphVar_scope db ctx v g0 row (hvis.2 hm) hg)
+          · rw [if_neg hm, if_neg (fun x => hm (hvis.1 x))]
+  | .group elems, h, scope, ctx, inc, hc, hi, hs => by
+      simp only [okPat, Bool.and_eq_true] at h
+      obtain ⟨he, hf⟩ := h
+      have hnb := okElems_no_bind elems he
+      simp only [lower, sem]
+      rw [lowerFilters_execB, lowerGroup_exec db scope ctx elems he]
+      simp only [implBind, exec_unit]
+      -- the group's own solutions
+      have hG : AllWF (semGroup db ctx [[]] elems) := semGroup_wf db elems he ctx [[]] allWF_unit
+      -- run with the incoming solutions
+      have h1 := runGroup_sound db elems he scope ctx inc hc hi hs
+      have h2 : semGroup db ctx inc elems = nlJoin inc (semGroup db ctx [[]] elems) := by
+        have := semGroup_assoc db ctx elems inc [[]] hi allWF_unit hnb
+        rwa [nlJoin_unit_right] at this
+      rw [h2] at h1
+      -- every solution of the group binds the group's certain variables
+      have hbound : ∀ r ∈ semGroup db ctx [[]] elems, ∀ v ∈ certainPs elems, (Row.get r v).isSome = true := by
+        have h0 := runGroup_sound db elems he .dflt ctx [[]] hc allWF_unit trivial
+        have hfacts := lowerGroup_facts .dflt elems he .unit rfl
+        intro r hr v hv
+        have hr' : r ∈ runGroup db .dflt ctx [[]] elems := h0.symm.subset hr
+        rw [← exec_unit db ctx [[]], show exec db .unit ctx [[]] = exec db (implBind .unit) ctx [[]] from rfl,
+          ← lowerGroup_exec db .dflt ctx elems he] at hr'
+        exact (exec_extends_plain db _ hfacts.1 ctx [[]] allWF_unit r hr').2 v (hfacts.2 v (Or.inr hv))
+      have hfb : ∀ c, Pat.filter c ∈ elems → ∀ r ∈ semGroup db ctx [[]] elems, ∀ v ∈ c.vars,
+          (Row.get r v).isSome = true := by
+        intro c hcm r hr v hv
+        apply hbound r hr v
+        have : ∀ (es : List Pat), filtersOk (certainPs elems) es = true → Pat.filter c ∈ es →
+            (certainPs elems).contains v = true := by
+          intro es
+          induction es with
+          | nil => intro _ hm; simp at hm
+          | cons e rest ih =>
+            intro hok hm
+            cases e with
+            | filter c' =>
+              simp only [filtersOk, Bool.and_eq_true] at hok
+              rcases mem_cons.1 hm with heq | hm'
+              · cases heq; exact (List.all_eq_true.1 hok.1) v hv
+              · exact ih hok.2 hm'
+            | _ =>
+              simp only [filtersOk] at hok
+              rcases mem_cons.1 hm with heq | hm'
+              · cases heq
+              · exact ih hok hm'
+        simpa using this elems hf hcm
+      refine (implFilters_perm elems h1).trans ?_
+      rw [implFilters_nlJoin inc _ elems hi hfb]
+      rw [group_filters_agree' _ elems (fun c hcm r hr v hv => hfb c hcm r hr v hv)]
+
+theorem runGroup_sound (db : DB) : (elems : List Pat) → okElems elems = true →
+    ∀ (scope : GTerm) (ctx : Ctx) (acc : List Row), ctx.WF → AllWF acc → ScopeOK db scope ctx acc →
+      runGroup db scope ctx acc elems ~ semGroup db ctx acc elems
+  | [], _, _, _, acc, _, _, _ => by simp only [runGroup, semGroup]; exact Perm.refl _
+  | e :: rest, he, scope, ctx, acc, hc, ha, hs => by
+      cases e with
+      | filter c =>
+        simp only [okElems] at he
+        simp only [runGroup, semGroup]
+        exact runGroup_sound db rest he scope ctx acc hc ha hs
+      | bind args out => simp [okElems, okPat] at he
+      | sub q spec => simp [okElems, okPat] at he
+      | unit =>
+        simp only [okElems, Bool.and_eq_true] at he
+        simp only [runGroup, semGroup]
+        exact group_step db scope ctx .unit rest acc ha hs (lower_sound db .unit he.1 scope ctx acc hc ha hs)
+          (fun acc' ha' hs' => runGroup_sound db rest he.2 scope ctx acc' hc ha' hs')
+      | bgp tps =>
+        simp only [okElems, Bool.and_eq_true] at he
+        simp only [runGroup, semGroup]
+        exact group_step db scope ctx (.bgp tps) rest acc ha hs (lower_sound db (.bgp tps) he.1 scope ctx acc hc ha hs)
+          (fun acc' ha' hs' => runGroup_sound db rest he.2 scope ctx acc' hc ha' hs')
+      | group es =>
+        simp only [okElems, Bool.and_eq_true] at he
+        simp only [runGroup, semGroup]
+        exact group_step db scope ctx (.group es) rest acc ha hs (lower_sound db (.group es) he.1 scope ctx acc hc ha hs)
+          (fun acc' ha' hs' => runGroup_sound db rest he.2 scope ctx acc' hc ha' hs')
+      | union bs =>
+        simp only [okElems, Bool.and_eq_true] at he
+        simp only [runGroup, semGroup]
+        exact group_step db scope ctx (.union bs) rest acc ha hs (lower_sound db (.union bs) he.1 scope ctx acc hc ha hs)
+          (fun acc' ha' hs' => runGroup_sound db rest he.2 scope ctx acc' hc ha' hs')
+      | graph n q =>
+        simp only [okElems, Bool.and_eq_true] at he
+        simp only [runGroup, semGroup]
+        exact group_step db scope ctx (.graph n q) rest acc ha hs (lower_sound db (.graph n q) he.1 scope ctx acc hc ha hs)
+          (fun acc' ha' hs' => runGroup_sound db rest he.2 scope ctx acc' hc ha' hs')
+      | values vs rs =>
+        simp only [okElems, Bool.and_eq_true] at he
+        simp only [runGroup, semGroup]
+        exact group_step db scope ctx (.values vs rs) rest acc ha hs (lower_sound db (.values vs rs) he.1 scope ctx acc hc ha hs)
+          (fun acc' ha' hs' => runGroup_sound db rest he.2 scope ctx acc' hc ha' hs')
+
+theorem lowerUnion_sound (db : DB) : (bs : List Pat) → okAll bs = true →
+    ∀ (scope : GTerm) (ctx : Ctx) (inc : List Row), ctx.WF → AllWF inc → ScopeOK db scope ctx inc →
+      exec db (implBind (lowerUnion scope bs)) ctx inc ~ nlJoin inc (semUnion db ctx bs)
+  | [], _, _, ctx, inc, _, _, _ => by
+      simp only [lowerUnion, implBind, exec_empty, semUnion, nlJoin_nil_right]; exact Perm.refl _
+  | b :: rest, h, scope, ctx, inc, hc, hi, hs => by
+      simp only [okAll, Bool.and_eq_true] at h
+      simp only [lowerUnion, implBind, exec_union, semUnion]
+      exact ((lower_sound db b h.1 scope ctx inc hc hi hs).append
+        (lowerUnion_sound db rest h.2 scope ctx inc hc hi hs)).trans (nlJoin_append_right inc _ _).symm
+end
+
+
+/-! ### the lowered plans of the fragment are safe, hence every physical plan computes the algebra -/
+
+theorem planCertain_implBind (L : Logical) : planCertain (implBind L) = certainL L := by
+  induction L with
+  | unit => rfl
+  | empty => rfl
+  | scan _ => rfl
+  | values _ _ => rfl
+  | subquery i spec ih => simp [implBind, planCertain, certainL]
+  | bind i args out ih => simp [implBind, planCertain, certainL]
+  | union l r ihl ihr => simp only [implBind, planCertain, certainL, ihl, ihr]
+  | graph i g ih => simp only [implBind, planCertain, certainL, ih]
+  | filter i c ih => simp only [implBind, planCertain, certainL, ih]
+  | join l r ihl ihr => simp only [implBind, planCertain, certainL, ihl, ihr]
+
+theorem safeL_appendJoin (a b : Logical) (ha : safeL a = true) (hb : safeL b = true) : safeL (appendJoin a b) = true := by
+  unfold appendJoin; split <;> simp_all [safeL]
+
+theorem safeL_bgp_fold (scope : GTerm) (tps : List (Term × Term × Term)) (L0 : Logical) (h0 : safeL L0 = true) :
+    safeL (tps.foldl (fun acc t => appendJoin acc (.scan ⟨t.1, t.2.1, t.2.2, scope⟩)) L0) = true := by
+  induction tps generalizing L0 with
+  | nil => exact h0
+  | cons t rest ih => simp only [foldl_cons]; exact ih _ (safeL_appendJoin _ _ h0 rfl)
+
+theorem safeL_lowerFilters (plan : Logical) (cert : List Var) (elems : List Pat) (hp : safeL plan = true)
+    (hc : ∀ v, cert.contains v = true → (certainL plan).contains v = true) (hf : filtersOk cert elems = true) :
+    safeL (lowerFilters plan elems) = true := by
+  induction elems generalizing plan with
+  | nil => simpa [lowerFilters]
+  | cons e rest ih =>
+    cases e with
+    | filter c =>
+      simp only [filtersOk, Bool.and_eq_true] at hf
+      simp only [lowerFilters]
+      apply ih
+      · simp only [safeL, hp, Bool.true_and]
+        rw [List.all_eq_true]
+        intro v hv
+        exact hc v ((List.all_eq_true.1 hf.1) v hv)
+      · simpa [certainL] using hc
+      · exact hf.2
+    | _ => simp only [filtersOk] at hf; simp only [lowerFilters]; exact ih plan hp hc hf
+
+mutual
+theorem safeL_lower (scope : GTerm) : (p : Pat) → okPat p = true → safeL (lower scope p) = true
+  | .unit, _ => rfl
+  | .bgp tps, _ => by rw [lower_bgp_eq]; exact safeL_bgp_fold scope tps .unit rfl
+  | .group elems, h => by
+      simp only [okPat, Bool.and_eq_true] at h
+      simp only [lower]
+      apply safeL_lowerFilters _ (certainPs elems) elems (safeL_lowerGroup scope elems h.1 .unit rfl) _ h.2
+      intro v hv
+      have := (lowerGroup_facts scope elems h.1 .unit rfl).2 v (Or.inr (by simpa using hv))
+      rw [planCertain_implBind] at this
+      simpa using this
+  | .union bs, h => by simp only [okPat] at h; simp only [lower]; exact safeL_lowerUnion scope bs h
+  | .graph name p, h => by
+      simp only [okPat, Bool.and_eq_true] at h
+      simp only [lower, safeL]; exact safeL_lower name p h.2
+  | .filter _, h => by simp [okPat] at h
+  | .bind _ _, h => by simp [okPat] at h
+  | .values _ _, _ => rfl
+  | .sub _ _, h => by simp [okPat] at h
+
+theorem safeL_lowerGroup (scope : GTerm) : (elems : List Pat) → okElems elems = true → (plan : Logical) →
+    safeL plan = true → safeL (lowerGroup scope plan elems) = true
+  | [], _, plan, hp => by simpa [lowerGroup] using hp
+  | e :: rest, he, plan, hp => by
+      cases e with
+      | filter c => simp only [okElems] at he; simp only [lowerGroup]; exact safeL_lowerGroup scope rest he plan hp
+      | bind args out => simp [okElems, okPat] at he
+      | sub q spec => simp [okElems, okPat] at he
+      | unit =>
+        simp only [okElems, Bool.and_eq_true] at he; simp only [lowerGroup]
+        exact safeL_lowerGroup scope rest he.2 _ (safeL_appendJoin _ _ hp (safeL_lower scope .unit he.1))
+      | bgp tps =>
+        simp only [okElems, Bool.and_eq_true] at he; simp only [lowerGroup]
+        exact safeL_lowerGroup scope rest he.2 _ (safeL_appendJoin _ _ hp (safeL_lower scope (.bgp tps) he.1))
+      | group es =>
+        simp only [okElems, Bool.and_eq_true] at he; simp only [lowerGroup]
+        exact safeL_lowerGroup scope rest he.2 _ (safeL_appendJoin _ _ hp (safeL_lower scope (.group es) he.1))
+      | union bs =>
+        simp only [okElems, Bool.and_eq_true] at he; simp only [lowerGroup]
+        exact safeL_lowerGroup scope rest he.2 _ (safeL_appendJoin _ _ hp (safeL_lower scope (.union bs) he.1))
+      | graph n q =>
+        simp only [okElems, Bool.and_eq_true] at he; simp only [lowerGroup]
+        exact safeL_lowerGroup scope rest he.2 _ (safeL_appendJoin _ _ hp (safeL_lower scope (.graph n q) he.1))
+      | values vs rs =>
+        simp only [okElems, Bool.and_eq_true] at he; simp only [lowerGroup]
+        exact safeL_lowerGroup scope rest he.2 _ (safeL_appendJoin _ _ hp (safeL_lower scope (.values vs rs) he.1))
+
+theorem safeL_lowerUnion (scope : GTerm) : (bs : List Pat) → okAll bs = true → safeL (lowerUnion scope bs) = true
+  | [], _ => rfl
+  | b :: rest, h => by
+      simp only [okAll, Bool.and_eq_true] at h
+      simp only [lowerUnion, safeL, safeL_lower scope b h.1, safeL_lowerUnion scope rest h.2, Bool.and_self]
+end
+
+/-- **Every physical plan of a pattern of the fragment computes the algebra's solution multiset** -/
+theorem plans_compute_algebra (db : DB) (p : Pat) (h : okPat p = true) (algs : List JoinAlg) (ctx : Ctx)
+    (hc : ctx.WF) : exec db (implement algs (lower .dflt p)).1 ctx [[]] ~ sem db ctx p := by
+  have hs := safeL_lower .dflt p h
+  obtain ⟨m, hm⟩ := implement_allBind (lower .dflt p) 0
+  have h1 := implement_any_two db _ hs algs (List.replicate (0 + m) JoinAlg.bind) ctx hc
+  rw [hm] at h1
+  have h2 := lower_sound db p h .dflt ctx [[]] hc allWF_unit trivial
+  rw [nlJoin_unit_left _ (sem_wf db p h ctx)] at h2
+  exact h1.trans h2
 
 end Kolibrie.Engine
